@@ -74,6 +74,7 @@ HOME = {
     ("src/qvector/rs_qvector.rs", "RSSupportPlain"): "src/qvector/rs_qvector/rs_support_plain.rs",
     ("src/qvector/rs_qvector.rs", "select_in_word_u128"): "src/utils/mod.rs",
     ("src/quadwt/mod.rs", "RSQVector"): "src/qvector/rs_qvector.rs",
+    ("src/quadwt/huffqwt.rs", "RSQVector"): "src/qvector/rs_qvector.rs",
     ("src/darray/mod.rs", "BitVector"): "src/bitvector/mod.rs",
     ("src/darray/mod.rs", "select_in_word"): "src/utils/mod.rs",
 }
@@ -178,6 +179,27 @@ TARGETS = list(GL.TARGETS) + [
     ("src/quadwt/mod.rs", "QWaveletTree", "rank", "g_qwt512_rank", {"T": "@T", "RS": "RSQVector", "S": "RSSupportPlain", "B_SIZE": 512}),
     ("src/quadwt/mod.rs", "QWaveletTree", "select", "g_qwt512_select", {"T": "@T", "RS": "RSQVector", "S": "RSSupportPlain", "B_SIZE": 512}),
     ("src/quadwt/mod.rs", "QWaveletTree", "select_unchecked", "g_qwt512_select_unchecked", {"T": "@T", "RS": "RSQVector", "S": "RSSupportPlain", "B_SIZE": 512}),
+    # ---- group hqwt: HuffQWaveletTree walks
+    ("src/quadwt/huffqwt.rs", "HuffQWaveletTree", "code_index", "g_hqwt256_code_index", {"T": "@T", "RS": "RSQVector", "S": "RSSupportPlain", "B_SIZE": 256}),
+    ("src/quadwt/huffqwt.rs", "HuffQWaveletTree", "len", "g_hqwt256_len", {"T": "@T", "RS": "RSQVector", "S": "RSSupportPlain", "B_SIZE": 256}),
+    ("src/quadwt/huffqwt.rs", "HuffQWaveletTree", "is_empty", "g_hqwt256_is_empty", {"T": "@T", "RS": "RSQVector", "S": "RSSupportPlain", "B_SIZE": 256}),
+    ("src/quadwt/huffqwt.rs", "HuffQWaveletTree", "n_levels", "g_hqwt256_n_levels", {"T": "@T", "RS": "RSQVector", "S": "RSSupportPlain", "B_SIZE": 256}),
+    ("src/quadwt/huffqwt.rs", "HuffQWaveletTree", "get_unchecked", "g_hqwt256_get_unchecked", {"T": "@T", "RS": "RSQVector", "S": "RSSupportPlain", "B_SIZE": 256}),
+    ("src/quadwt/huffqwt.rs", "HuffQWaveletTree", "get", "g_hqwt256_get", {"T": "@T", "RS": "RSQVector", "S": "RSSupportPlain", "B_SIZE": 256}),
+    ("src/quadwt/huffqwt.rs", "HuffQWaveletTree", "rank_unchecked", "g_hqwt256_rank_unchecked", {"T": "@T", "RS": "RSQVector", "S": "RSSupportPlain", "B_SIZE": 256}),
+    ("src/quadwt/huffqwt.rs", "HuffQWaveletTree", "rank", "g_hqwt256_rank", {"T": "@T", "RS": "RSQVector", "S": "RSSupportPlain", "B_SIZE": 256}),
+    ("src/quadwt/huffqwt.rs", "HuffQWaveletTree", "select", "g_hqwt256_select", {"T": "@T", "RS": "RSQVector", "S": "RSSupportPlain", "B_SIZE": 256}),
+    ("src/quadwt/huffqwt.rs", "HuffQWaveletTree", "select_unchecked", "g_hqwt256_select_unchecked", {"T": "@T", "RS": "RSQVector", "S": "RSSupportPlain", "B_SIZE": 256}),
+    ("src/quadwt/huffqwt.rs", "HuffQWaveletTree", "code_index", "g_hqwt512_code_index", {"T": "@T", "RS": "RSQVector", "S": "RSSupportPlain", "B_SIZE": 512}),
+    ("src/quadwt/huffqwt.rs", "HuffQWaveletTree", "len", "g_hqwt512_len", {"T": "@T", "RS": "RSQVector", "S": "RSSupportPlain", "B_SIZE": 512}),
+    ("src/quadwt/huffqwt.rs", "HuffQWaveletTree", "is_empty", "g_hqwt512_is_empty", {"T": "@T", "RS": "RSQVector", "S": "RSSupportPlain", "B_SIZE": 512}),
+    ("src/quadwt/huffqwt.rs", "HuffQWaveletTree", "n_levels", "g_hqwt512_n_levels", {"T": "@T", "RS": "RSQVector", "S": "RSSupportPlain", "B_SIZE": 512}),
+    ("src/quadwt/huffqwt.rs", "HuffQWaveletTree", "get_unchecked", "g_hqwt512_get_unchecked", {"T": "@T", "RS": "RSQVector", "S": "RSSupportPlain", "B_SIZE": 512}),
+    ("src/quadwt/huffqwt.rs", "HuffQWaveletTree", "get", "g_hqwt512_get", {"T": "@T", "RS": "RSQVector", "S": "RSSupportPlain", "B_SIZE": 512}),
+    ("src/quadwt/huffqwt.rs", "HuffQWaveletTree", "rank_unchecked", "g_hqwt512_rank_unchecked", {"T": "@T", "RS": "RSQVector", "S": "RSSupportPlain", "B_SIZE": 512}),
+    ("src/quadwt/huffqwt.rs", "HuffQWaveletTree", "rank", "g_hqwt512_rank", {"T": "@T", "RS": "RSQVector", "S": "RSSupportPlain", "B_SIZE": 512}),
+    ("src/quadwt/huffqwt.rs", "HuffQWaveletTree", "select", "g_hqwt512_select", {"T": "@T", "RS": "RSQVector", "S": "RSSupportPlain", "B_SIZE": 512}),
+    ("src/quadwt/huffqwt.rs", "HuffQWaveletTree", "select_unchecked", "g_hqwt512_select_unchecked", {"T": "@T", "RS": "RSQVector", "S": "RSSupportPlain", "B_SIZE": 512}),
 ]
 
 # group -> (source file, owner types or None, first index in TARGETS that belongs to T5)
@@ -190,6 +212,7 @@ GROUPS = {
     "rsq": ("src/qvector/rs_qvector.rs", None),
     "qv2": ("src/qvector/mod.rs", None),
     "qwt": ("src/quadwt/mod.rs", None),
+    "hqwt": ("src/quadwt/huffqwt.rs", None),
 }
 # which generated files a group's file must import (T3 leaves and earlier T5 groups)
 GROUP_IMPORTS = {
@@ -199,12 +222,13 @@ GROUP_IMPORTS = {
     "rss": ["LeavesSB"],
     "qv2": ["LeavesLine", "LeavesQV"],
     "qwt": ["FnsRsq"],
+    "hqwt": ["FnsRsq"],
     "rsq": ["LeavesUtils", "LeavesSB", "LeavesLine", "LeavesQV", "FnsRss", "FnsQv2"],
 }
 
 GL.RESERVED |= set("""while_loop for_loop iter_loop Next Brk Ret Done Retd len concat ounwrap wshl wshr fsqrt fuel Some
     None option step fin r s v zwrap ziadd zisub zimul zshamt Z left right inl inr pair fst snd S O nil cons xH xO xI N0 Npos
-    Z0 Zpos Zneg eq_refl conj I opt_ltb nthN wT for_loop_rev checked_add""".split())
+    Z0 Zpos Zneg eq_refl conj I opt_ltb nthN wT for_loop_rev checked_add obsearch_fst""".split())
 
 
 # ------------------------------------------------------------------------------ item index with trait info
@@ -543,6 +567,9 @@ class Parser5(Parser):
                 elif e[0] == "mcall" and self.at(";"):
                     self.i += 1
                     stmts.append(("call", e))
+                elif e[0] == "try" and self.at(";"):
+                    self.i += 1
+                    stmts.append(("trystmt", e))
                 else:
                     self.fail("expression statement")
         return ("block", stmts, tail)
@@ -558,6 +585,19 @@ class Parser5(Parser):
         return self.expr(1)
 
     def primary(self):
+        t0 = self.peek()
+        if t0.kind == "str":
+            self.i += 1
+            return ("str", t0.text)
+        if t0.kind == "op" and t0.text == "|":
+            # closure |pat| body  (only as the key function of binary_search_by_key)
+            self.i += 1
+            pat = []
+            while not self.at("|"):
+                pat.append(self.peek().text)
+                self.i += 1
+            self.expect("|")
+            return ("closure", pat, self.expr())
         if self.at("if") and self.at("let", 1):
             self.i += 2
             if not (self.at("Some") and self.at("(", 1)):
@@ -590,6 +630,10 @@ class Parser5(Parser):
         e = self.primary()
         while True:
             if self.accept("."):
+                if self.peek().kind == "int":
+                    e = ("tfield", e, int(self.peek().text))
+                    self.i += 1
+                    continue
                 name = self.ident()
                 e = ("mcall", e, name, self.args()) if self.at("(") else ("field", e, name)
             elif self.accept("["):
@@ -853,6 +897,24 @@ class FnT5(FnTranslator):
                 for a in e[3]:
                     self.scan_paths(a, used)
                 return
+        if isinstance(e, tuple) and e and e[0] == "mcall" and e[2] == "len" and self.soa_chain(e[1]) is not None:
+            first = self.soa_leaves(self.soa_chain(e[1]))[0]
+            if first not in used:
+                used.append(first)
+            return
+        if isinstance(e, tuple) and e and e[0] == "field" and self.soa_recv(e[1]) is not None:
+            r, ix = self.soa_recv(e[1])
+            if r[1] + (e[2],) not in used:
+                used.append(r[1] + (e[2],))
+            self.scan_paths(ix, used)
+            return
+        if isinstance(e, tuple) and e and e[0] == "index" and self.soa_chain(e[1]) is not None:
+            # an element of a slice of structs bound to a variable: all its fields may be read
+            for pp in self.soa_leaves(self.soa_chain(e[1])):
+                if pp not in used:
+                    used.append(pp)
+            self.scan_paths(e[2], used)
+            return
         if isinstance(e, tuple) and e and e[0] == "field":
             names = self.chain(e)
             if names is not None:
@@ -864,6 +926,50 @@ class FnT5(FnTranslator):
                 self.fail("struct-valued field `self.%s` used as a value" % ".".join(names))
         for x in e:
             self.scan_paths(x, used)
+
+    def soa_chain(self, e):
+        """e = self.f.. naming a slice of several-field structs: ('soa', path, struct, rel)"""
+        while e[0] == "ref" or (e[0] == "un" and e[1] == "*"):
+            e = e[1] if e[0] == "ref" else e[2]
+        names = self.chain(e) if e[0] == "field" else None
+        if names:
+            r = self.resolve_chain(names)
+            if r[0] == "soa":
+                return r
+        return None
+
+    def soa_leaves(self, r):
+        return [pp for pp, _ in self.leaf_paths(("struct", r[2]), self.world.unit(r[3]), r[1])]
+
+    def bsearch_pattern(self, e):
+        """X.binary_search_by_key(&k, |(x, _)| *x).expect("..") -> (X, k)"""
+        if e[0] == "mcall" and e[2] == "expect" and len(e[3]) == 1 and e[3][0][0] == "str" and e[1][0] == "mcall" \
+                and e[1][2] == "binary_search_by_key" and len(e[1][3]) == 2:
+            k, clo = e[1][3]
+            if clo[0] == "closure" and clo[1] in (["(", "x", ",", "_", ")"],) and clo[2] in (("un", "*", ("var", "x")), ("var", "x")):
+                return e[1][1], (k[1] if k[0] == "ref" else k)
+        return None
+
+    def soa_field(self, e, env):
+        """e = X.f with X an element of a slice of several-field structs (self.v[ix] or a variable bound to one):
+        (coq list of the field, index term or expression, element type)"""
+        x = e[1]
+        while x[0] == "ref" or (x[0] == "un" and x[1] == "*"):
+            x = x[1] if x[0] == "ref" else x[2]
+        if x[0] == "var" and x[1] in env and isinstance(env[x[1]][1], tuple) and env[x[1]][1][0] == "soaelem":
+            r, ixv = env[x[1]][1][1], env[x[1]][1][2]
+            pp = r[1] + (e[2],)
+            if pp not in self.path_ty:
+                self.fail("field `.%s` of an element of self.%s" % (e[2], ".".join(r[1])))
+            return self.path_coq[pp], ("term", ixv), self.path_ty[pp][1]
+        soa = self.soa_recv(x)
+        if soa is not None:
+            r, ix = soa
+            pp = r[1] + (e[2],)
+            if pp not in self.path_ty:
+                self.fail("field `.%s` of an element of self.%s" % (e[2], ".".join(r[1])))
+            return self.path_coq[pp], ("expr", ix), self.path_ty[pp][1]
+        return None
 
     def soa_recv(self, recv):
         """recv = self.f..[ix] with f.. a slice of several-field structs: (('soa', path, struct, rel), ix)"""
@@ -901,6 +1007,10 @@ class FnT5(FnTranslator):
         k = e[0]
         if k == "lit" and e[2] is None and isinstance(exp, str) and exp in SINT:
             return exp
+        if k == "field" and e[1][0] in ("var", "index", "ref", "un") and self.soa_field(e, env) is not None:
+            return self.soa_field(e, env)[2]
+        if k == "index" and e[1][0] in ("field", "ref") and self.soa_chain(e[1]) is not None:
+            return ("soaelem", self.soa_chain(e[1]), None)
         if k == "self":
             return ("record", self.owner, self.unit.rel)
         if k == "ref" or (k == "un" and e[1] == "*"):
@@ -956,6 +1066,24 @@ class FnT5(FnTranslator):
             if not (isinstance(ot, tuple) and ot[0] == "option"):
                 self.fail("`?` on a value of type %s" % (ot,))
             return ot[1]
+        if k == "str":
+            return "str"
+        if k == "tfield":
+            t = self.ty(e[1], None, env)
+            if not (isinstance(t, tuple) and t[0] == "tuple" and e[2] < len(t[1])):
+                self.fail("tuple field `.%d` of %s" % (e[2], t))
+            return t[1][e[2]]
+        if self.bsearch_pattern(e):
+            return "usize"
+        if k == "mcall" and e[2] in ("is_none", "is_some") and not e[3]:
+            ot = self.ty(e[1], None, env)
+            if isinstance(ot, tuple) and ot[0] == "option":
+                return "bool"
+        if k == "mcall" and e[2] == "len" and not e[3] and self.soa_chain(e[1]) is not None:
+            return "usize"
+        if k == "call" and len(e[1]) == 2 and self.tsubst.get(e[1][0]) == "@T" and e[1][1] == "from" and len(e[3]) == 1:
+            return ("option", "@T")
+
         if k == "call" and len(e[1]) == 2 and self.tsubst.get(e[1][0]) == "@T" and e[1][1] in ("zero", "one") and not e[3]:
             return "@T"
         if k == "call" and e[1] in (["Vec", "with_capacity"], ["Vec", "new"]):
@@ -1036,6 +1164,9 @@ class FnT5(FnTranslator):
         def expr(e, env):
             if found or not isinstance(e, (tuple, list)):
                 return
+            if isinstance(e, tuple) and e and e[0] == "index" and e[2] == ("var", name):
+                found.append("usize")
+                return
             if isinstance(e, tuple) and e and e[0] == "bin" and e[1] not in ("<<", ">>", "&&", "||"):
                 for a, b in ((e[2], e[3]), (e[3], e[2])):
                     if a == ("var", name):
@@ -1099,6 +1230,9 @@ class FnT5(FnTranslator):
 
     def let_types(self, s, env, bind, rest=None):
         _, pat, ann, init = s
+        if ann is not None and self.sub_t(ann) != ann:
+            s = (s[0], pat, self.sub_t(ann), init)
+            ann = s[2]
         if ann is None and init is not None and init[0] == "call" and init[1] in (["Vec", "with_capacity"], ["Vec", "new"]) \
                 and isinstance(pat, str) and rest is not None:
             t = self.later_type(pat, rest, env)
@@ -1193,6 +1327,14 @@ class FnT5(FnTranslator):
     # ---- expressions
     def emit(self, e, exp, cx):
         k, env = e[0], cx.env
+        if k == "field" and e[1][0] in ("var", "index", "ref", "un") and self.soa_field(e, env) is not None:
+            lst, ix, _ = self.soa_field(e, env)
+            if ix[0] == "term":
+                iv = ix[1]
+            else:
+                self.need(ix[1], "usize", env, "usize")
+                iv = self.val(ix[1], "usize", cx)
+            return app("idx", lst, iv), False
         if k == "lit" and self.ty(e, exp, env) in SINT:
             t = self.ty(e, exp, env)
             if e[1] >= 2 ** (SINT[t] - 1):
@@ -1212,6 +1354,33 @@ class FnT5(FnTranslator):
             self.fail("cast from %s to %s" % (src, e[2]))
         if k == "ref" or (k == "un" and e[1] == "*"):
             return self.emit(e[1] if k == "ref" else e[2], exp, cx)
+        if k == "tfield":
+            t = self.ty(e[1], None, env)
+            self.ty(e, exp, env)
+            a = self.val(e[1], None, cx)
+            if len(t[1]) != 2:
+                self.fail("field of a tuple that is not a pair")
+            return app("fst" if e[2] == 0 else "snd", a), True
+        if self.bsearch_pattern(e):
+            X, kx = self.bsearch_pattern(e)
+            tl = self.ty(X, None, env)
+            if not (is_list(tl) and isinstance(tl[1], tuple) and tl[1][0] == "tuple" and len(tl[1][1]) == 2 and tl[1][1][0] in INT):
+                self.fail("binary_search_by_key on %s" % (tl,))
+            self.need(kx, tl[1][1][0], env, tl[1][1][0])
+            a = self.val(X, None, cx)
+            kv = self.val(kx, tl[1][1][0], cx)
+            return app("obsearch_fst", a, kv), False
+        if k == "mcall" and e[2] in ("is_none", "is_some") and not e[3] and isinstance(self.ty(e[1], None, env), tuple) \
+                and self.ty(e[1], None, env)[0] == "option":
+            a = self.val(e[1], None, cx)
+            return ("match %s with None => true | Some _ => false end" if e[2] == "is_none"
+                    else "match %s with None => false | Some _ => true end") % a, True
+        if k == "mcall" and e[2] == "len" and not e[3] and self.soa_chain(e[1]) is not None:
+            first = self.soa_leaves(self.soa_chain(e[1]))[0]
+            return app("len", self.path_coq[first]), True
+        if k == "call" and len(e[1]) == 2 and self.tsubst.get(e[1][0]) == "@T" and e[1][1] == "from" and len(e[3]) == 1:
+            self.need(e[3][0], "@T", env, "@T")
+            return app("Some", self.val(e[3][0], "@T", cx)), True
         if k == "try":
             if cx is not getattr(self, "stmt_cx", None):
                 self.fail("`?` inside a nested expression block")
@@ -1607,6 +1776,24 @@ class FnT5(FnTranslator):
             k = s[0]
             if k == "letdecl":
                 cx.env[s[1]] = (None, s[2], cx.depth)
+            elif k == "trystmt":
+                ot = self.ty(s[1][1], None, cx.env)
+                if not (isinstance(ot, tuple) and ot[0] == "option"):
+                    self.fail("`?` on a value of type %s" % (ot,))
+                v = self.val(s[1][1], None, cx)
+                L.append("TRY _ := %s" % v)
+            elif k == "let" and isinstance(s[1], str) and s[3] is not None and self.soa_elem_init(s[3]) is not None:
+                r, ix = self.soa_elem_init(s[3])
+                self.need(ix, "usize", cx.env, "usize")
+                iv = self.val(ix, "usize", cx)
+                if not re.fullmatch(r"[A-Za-z_][A-Za-z0-9_']*|[0-9]+", iv):
+                    nm = self.fresh()
+                    L.append("let %s := %s in" % (nm, iv))
+                    iv = nm
+                first = self.soa_leaves(r)[0]
+                L.append("let! _ := %s in" % app("idx", self.path_coq[first], iv))
+                cx.env[s[1]] = (None, ("soaelem", r, iv), cx.depth)
+                self.nominal.pop(s[1], None)
             elif k == "let":
                 t = self.let_types(s, cx.env, lambda a, b: None, (rest, tail, flow.exp))
                 v, pure = self.emit(s[3], t, cx)
@@ -1677,6 +1864,14 @@ class FnT5(FnTranslator):
             else:
                 self.fail("statement `%s`" % k)
         return L + flow.end(self, tail, cx)
+
+    def soa_elem_init(self, e):
+        """`&self.v[ix]` with v a slice of several-field structs: (soa, ix)"""
+        while e[0] == "ref" or (e[0] == "un" and e[1] == "*"):
+            e = e[1] if e[0] == "ref" else e[2]
+        if e[0] == "index" and self.soa_chain(e[1]) is not None:
+            return self.soa_chain(e[1]), e[2]
+        return None
 
     def call_stmt(self, e, cx):
         """`v.push(x);` on a local Vec, `recv.prefetch_*(args);` (no effect)"""
